@@ -135,7 +135,8 @@ def msgs_arm(d, T):
         pm = "String::new()"
         if fam != "string" and has(d, "FromStr"):
             pm = "NtParseError::Validate(NtError::%s).to_string()" % v
-        items.append('json!({"variant": "%s", "text": NtError::%s.to_string(), "bound_dbg": %s, "parse_msg": %s})' % (v, v, b, pm))
+        items.append('json!({"variant": "%s", "text": NtError::%s.to_string(), "bound_dbg": %s, "parse_msg": %s, '
+                     '"renderings": [format!("{:.1}", NtError::%s), format!("{:>90}", NtError::%s), format!("{:+.0}", NtError::%s), format!("{:08.3}", NtError::%s)]})' % (v, v, b, pm, v, v, v, v))
     return '"msgs" => (json!({"k": "obs", "msgs": [%s]}), Value::Null)' % ", ".join(items)
 
 
